@@ -331,7 +331,7 @@ impl Evaluatable for Value {
                     Ok(Type::Array(Box::new(Type::Any)))
                 } else {
                     let t = a[0].real_type_of(ctx.clone())?;
-                    a.iter().try_for_each(|x| {
+                    a.iter().skip(1).try_for_each(|x| {
                         let xt = x.real_type_of(ctx.clone())?;
                         if xt != t {
                             bail!("array member must have same type: required type={:?}, mismatch type={} item={:?}", t, xt, x)
